@@ -10,12 +10,12 @@ HERE = os.path.dirname(os.path.dirname(os.path.abspath(__file__)))
 
 T = {
  "C01": dict(
-    technique="static analysis: effect/purity summaries, presence-guard table with closure and cycle rules, alias analysis of cached values, protocol order in __getitem__ (ast + dataflow)",
+    technique="static analysis: effect/purity summaries, presence-guard table with closure and cycle rules (alternative derivations: both branches interpreted and compared with the defining formula of their configuration, or proved equal by definitional expansion), alias analysis of cached values, protocol order in __getitem__ (ast + dataflow + abstract interpretation)",
     category="other", design="DESIGN.md section 9.2 and section 4 C01, section 3 E1/E2",
     text="Structural theorem: a value is a function of (inputs, options) alone if quantity methods are pure, cached values are never modified, and every `'k' in self.data` guard is history-insensitive. The check establishes these three premises on all methods and all guard sites of the current source.",
     note="Assumes the two formulas of an alternative-derivation guard agree (3+1 identities, frozen table); discretisation error not decided; F5 (rho/rho0/eps cycle) is a listed known finding."),
  "C02": dict(
-    technique="static analysis: interprocedural alias/ownership dataflow with mutation sinks (ast)",
+    technique="static analysis: interprocedural alias/ownership dataflow with mutation sinks; values returned by memoised functions are shared storage (ast)",
     category="other", design="DESIGN.md section 9.2 and section 4 C02, section 3 E2",
     text="Ownership discipline over core.py, time.py, reading.py, maths.py, finitedifference.py, numerical.py: no in-place sink (augmented assignment, subscript store, mutating method, out=) is reachable from a value that may share storage with a cached value, an fd attribute, or a caller-owned argument.",
     note="numpy/scipy/h5py internals trusted not to mutate arguments passed without out=."),
@@ -40,7 +40,7 @@ T = {
     text="The written form of Hamiltonian, Momentum, dtKtrace, dtphi, dtgammaup3, dtgammadown3_bssnok, dtAdown3_bssnok, dts_Gamma_bssnok equals the cited textbook equations term by term (sign, coefficient, index pattern), for every input at once.",
     note="Convergence to the true time derivative not decided; helper correctness is C05."),
  "C07": dict(
-    technique="static analysis: exact rational stencil extraction + moment conditions (proof obligations); symbolic interpretation of the array plumbing (slice/concatenate/pad/transpose/list terms, N symbolic) on the canonical form of the module, affine segment arithmetic of the boundary splices, permutation/axis and tensor-map term equalities (ast, fractions)",
+    technique="static analysis: exact rational stencil extraction + moment conditions (proof obligations); partial evaluation of the module (tables, closures, namedtuples, generators, dispatch loops executed; field, grid size N and parameters kept as terms: slice/concatenate/pad/transpose/list terms, affine forms, linear stencil forms), constructor evaluated per order, d3 per boundary mode, affine segment arithmetic of the boundary splices, permutation/axis and tensor-map term equalities (ast, fractions)",
     category="proof", design="DESIGN.md section 9.2 and section 4 C07",
     text="Proof for all grid sizes, orders, boundary modes, axes and ranks: the 72 moment conditions pin the 12 stencils to the unique standard weights (exact on polynomials of degree <= p); the splices tile [0,N) once with in-range subscripts for N >= 3p/2, periodic/symmetric extensions map index j to (j-m) mod N / the mirror image; y,z operators are the x operator under axis exchange; tensor maps act componentwise in index order.",
     note="Floating-point round-off of the weights and of the sums is not part of the claim; numpy slicing/concatenate/transpose/pad semantics are modelled, not executed."),
@@ -55,27 +55,27 @@ T = {
     text="The written form of uup/udown, h (three index positions), Tdown4/Tup4/Ttrace, rho_n, flux, stress, pressures, conserved densities equals the textbook definitions term by term with correct index placement.",
     note="The closed forms E = rho h W^2 - p etc. are consequences, not separately decided."),
  "C10": dict(
-    technique="static analysis: abstract interpretation of the tensor code (ast) into exact componentwise polynomials over opaque field atoms with per-slot index variance; einsum index-discipline rules; equality with reference index formulas evaluated in the same domain, per reachable configuration (vacuum flag, presence guards); Riemann-symmetry analysis on the component polynomials, Newman-Penrose contraction table by role on a generic tetrad, Gram-Schmidt sign rule, invariant polynomials, alias analysis",
+    technique="static analysis: abstract interpretation of the tensor code (ast) into exact componentwise polynomials over opaque field atoms with per-slot index variance; einsum index-discipline rules; equality with reference index formulas evaluated in the same domain, per reachable configuration (vacuum flag, presence guards); Riemann-symmetry analysis on the component polynomials, Newman-Penrose contraction table by role on a generic tetrad, Gram-Schmidt rule decided on the interpreted tetrad (inner products and norms as fresh symbols: every projection coefficient multiplies -g(e,e) e of an already normalised leg, every earlier leg is projected out), invariant polynomials, alias analysis",
     category="other", design="DESIGN.md section 9.2 and section 4 C10",
     text="Both Weyl constructions are typed; the Riemann-based formula is antisymmetric in each pair, pair-symmetric and trace-free on index patterns; E/B formulas match reference term lists; Weyl scalars are the NP contractions by role; tetrad Gram-Schmidt steps have the signs required by the metric signature; invariants are the stated polynomials.",
     note="Convergence, numerical orthonormality and tetrad-independence are not decided."),
  "C11": dict(
-    technique="static analysis: ordering provenance in join_chunks, storage-order convention table over both readers, restart-selection flow, name-map table agreement, definite assignment (ast + CFG + def-use)",
+    technique="static analysis: ordering provenance in join_chunks, chunk-coverage rule (chunk count = maximum over all keys), storage-order convention table over both readers, restart-selection flow (role-based: latest-first scan that stops at the first hit), name-map table agreement, definite assignment (ast + CFG + def-use)",
     category="other", design="DESIGN.md section 9.2 and section 4 C11",
     text="Structural clauses: every multi-chunk concatenation is ordered by a sort of the origin component paired with its axis; ghost trimming pairs axis i with nghostzones[2-i]; latest-restart selection; name maps mutually consistent; no use of a possibly-unassigned or stale loop variable.",
     note="Equality of returned data with file contents is not decided; ghost width >= 1 assumed."),
  "C12": dict(
-    technique="static analysis: row-index provenance (def-use closure) in cache writer and filler, writer/reader template agreement, one-entry-per-iteration column rule, dataset write discipline (ast + def-use)",
+    technique="static analysis: row-index provenance (def-use closure) in cache writer and filler, writer/reader template agreement, separator-guard rule (the '/' between path and file name depends on the path's text only), one-entry-per-iteration column rule, dataset write discipline (ast + def-use)",
     category="other", design="DESIGN.md section 9.2 and section 4 C12",
     text="The index used to pick a row when filing into or filling from the cache is data-dependent on the iteration column of the dictionary it indexes; path/file/dataset-key templates of writer and reader agree.",
     note="Value equality across arbitrary call histories not decided."),
  "C13": dict(
-    technique="static analysis on the canonical form: row-index provenance (def-use), canonical string templates with role-named holes (writer vs reader), path-condition guard/use agreement, one-entry-per-iteration column rule, dataset write discipline, alias analysis of the arguments (ast + dataflow)",
+    technique="static analysis on the canonical form: row-index provenance (def-use), canonical string templates with role-named holes (writer vs reader), path-condition guard/use agreement, separator-guard rule, one-entry-per-iteration column rule, dataset write discipline, alias analysis of the arguments (ast + dataflow)",
     category="other", design="DESIGN.md section 9.2 and section 4 C13",
     text="Structural clauses of the save/read round trip decided on all paths.",
     note="HDF5 fidelity (h5py) trusted."),
  "C14": dict(
-    technique="static analysis: per-step isolation (fresh instance dominance, no escape), must-freeze-before-read event simulation, install-before-request order, row coverage and row-permutation rules, estimator table agreement, alias analysis of the arguments (ast + dataflow)",
+    technique="static analysis: per-step isolation (fresh instance dominance, no escape), must-freeze-before-read event simulation, install-before-request order, row coverage and row-permutation rules, estimator table decided by evaluating it (module-level display, ** merges, comprehensions, lambdas with late binding) on a symbolic array, alias analysis of the arguments (ast + dataflow)",
     category="other", design="DESIGN.md section 9.2 and section 4 C14",
     text="Structural clauses: each step computes on an instance created in that invocation whose inputs are frozen and whose custom variables are all installed before anything is requested from it; every input row is processed; rows are permuted whole; each estimate column applies the estimator bound to its name to the column named in its key; already-present requests are skipped, input columns are not written.",
     note="Equality with a fresh computation is a consequence of C01-C03 + isolation, not separately decided."),
@@ -85,17 +85,17 @@ T = {
     text="Each of the ten symbolic quantities equals its textbook definition component by component for a generic metric, independently of the simplify flag and of which intermediates are cached; every skipped component is zero by a symmetry, mirrored fills are exactly the tensor's symmetries; no method writes into a cached object.",
     note="Derivatives are opaque atoms (d_k of a component): agreement is of the written formula with the definition, not of a CAS evaluation for a particular metric; sympy's own simplify/diff are trusted."),
  "C16": dict(
-    technique="static analysis: exact polynomial form of the coordinate arrays, arange count-determinism lint, extent/size provenance, meshgrid convention, axis-sibling isomorphism, axis-letter/index pairing, symmetric-trim rule, written form of the Cartesian->spherical map over function atoms (ast, exact arithmetic)",
+    technique="static analysis: partial evaluation of the constructor and of the helpers of finitedifference.py (values of the attributes as terms over the parameter table): exact polynomial form of the coordinate arrays, extent/size provenance, meshgrid convention, axis-sibling isomorphism of the attribute values, trimming helpers evaluated per rank, both directions of the Cartesian<->spherical map as closed forms over function atoms; arange count-determinism lint, axis-letter/index pairing (ast, exact arithmetic)",
     category="other", design="DESIGN.md section 9.2 and section 4 C16",
     text="Count/shape/extent clauses decided for all parameters: N points per axis at min+i*d, extents are the last grid point, sizes derive from the arrays, axis letters pair with indices consistently, trims are symmetric multiples of mask_len.",
     note="The written Cartesian->spherical formulas are decided (r, arccos(z/r), sign(y) arccos(x/rho)); the numerical round trip to rounding is not."),
  "C17": dict(
-    technique="static analysis: numeric/symbolic sibling-branch agreement by polynomial normalisation over function atoms; component/axis pairing; static-metric <=> zero-K dependence rule; K = -(1/2 alpha) d_t gamma by syntactic differentiation of the expression trees (chain/product/power rules, exact normal forms, two declared facts); scaling-weight (dimensional homogeneity) type system over the closed forms with coordinate weights inferred from the module's own metric (ast, exact arithmetic)",
+    technique="static analysis: numeric/symbolic sibling-branch agreement by polynomial normalisation over function atoms; component/axis pairing on the evaluated 3x3 matrices; static-metric <=> zero-K dependence rule; K = -(1/2 alpha) d_t gamma by syntactic differentiation of the expression trees (chain/product/power rules, exact normal forms, two declared facts); scaling-weight (dimensional homogeneity) type system over the closed forms with coordinate weights inferred from the module's own metric (ast, exact arithmetic)",
     category="other", design="DESIGN.md section 9.2 and section 4 C17",
     text="Decided on the expression trees: the numerical and symbolic forms of every bundled solution agree; K_ij is -(1/(2 alpha)) d_t of the module's own gamma_ij (zero shift) for 7 of 9 modules; entry (a, b) of the perturbed-FLRW tensors is built from axes a and b; in the five typable modules every closed form (K, T, rho, p, Ricci and Kretschmann scalars, null expansions) is homogeneous of the scaling weight its role requires.",
     note="Einstein's equations for the matter content and the published closed-form scalars are NOT decided (second derivatives, inverse metrics and simplification of transcendental expressions: computer algebra, not static analysis); the scaling rule is a necessary condition of those clauses only; declared facts: LCDM da/dt = a H, Szekeres dZ/dt = dtZ; 2 modules' K and the modules with dimensionful numerical constants are listed unverified / not typable."),
  "C18": dict(
-    technique="static analysis: token-collision analysis of parser guards vs writer templates with hole alphabets, protocol-order rule, writer/parser round trip of iterations.txt by abstract interpretation of the parser on the writer's line templates, level-representative provenance, regex group-structure agreement, separator rule, module-state write rule, alias analysis of the merged overview, definite assignment / stale values across restarts (ast, re._parser, dataflow)",
+    technique="static analysis: token-collision analysis of parser guards vs writer templates with hole alphabets, protocol-order rule, writer/parser round trip of iterations.txt by abstract interpretation of the parser on the writer's line templates, level-representative provenance, regex group-structure agreement, glob-anchor rule (a number read from a globbed path is located by the full literal prefix of the pattern), separator rule, module-state write rule, alias analysis of the merged overview, definite assignment / stale values across restarts (ast, re._parser, dataflow)",
     category="other", design="DESIGN.md section 9.2 and section 4 C18",
     text="Format-level clauses decided for all names: no parser guard token can occur in a free hole of another line's template; the restart header is written first; regex groups used exist, are digits where converted and are tested when optional; every catalogue line parses back, key by key and field by field, to what was stored in memory next to it; the component representing a refinement level is chosen among that level's datasets; the key separator is outside the name alphabet; no scan result is cached in module state; per-restart entries are not updated through the merged overview; no stale value crosses restarts.",
     note="That a scan reports what is on disk is not decided. The round trip of iterations.txt is decided for the seven line templates (lists instantiated with 0/2 generic elements, holes assumed free of the separators, which the token-collision rule establishes)."),
@@ -105,7 +105,7 @@ T = {
     text="Necessary conditions: index discipline and written form of st_covd_udown4 (time derivative of u_mu), acceleration, projection, expansion, shear, vorticity.",
     note="The identities themselves (theta = -K, ...) and their convergence are not decided."),
  "C20": dict(
-    technique="static analysis: must-pass-through bounds refusal, analysis/synthesis agreement and angle roles decided on symbolic values (exact normal forms of the expressions), module-state and loop-carried-state rules, integer-overflow domain of the normalisation (ast, exact arithmetic)",
+    technique="static analysis: must-pass-through bounds refusal, analysis/synthesis agreement and angle roles decided on symbolic values (exact normal forms of the expressions), module-state and loop-carried-state rules, sphere-centre rule on the partially evaluated Psi4_lm (sampled points = centre + R n in grid coordinates), integer-overflow domain of the normalisation (ast, exact arithmetic)",
     category="other", design="DESIGN.md section 9.2 and section 4 C20",
     text="sYlm equals the Goldberg closed form as an exact polynomial in cos(theta/2), sin(theta/2), exp(i phi) for 115 (s, l, m) cases and is regular at the poles; extrapolating interpolator is only reachable through the bounds refusal; decomposition and reconstruction iterate the same (l,m) and call sYlm identically (conjugated in analysis); inclination/azimuth values flow only into parameters of their role; per-radius values do not carry over between radii.",
     note="sYlm is compared with the Goldberg closed form for |s| <= 2, l <= 4 (integers concrete, angles symbolic); larger l, the numerical quadrature error of the decomposition, interpolation exactness and convergence of the mode amplitudes are NOT decided."),
@@ -119,6 +119,13 @@ ENGINES = [
  dict(name="aurelsa.selftest", path="aurelsa/selftest.py", serves_properties=sorted(T),
       kind_free_text="thorough tier: mutation self-test of each analyser on scratch copies"),
 ]
+
+
+_SD = os.path.join(HERE, "seeded")
+N_SEEDS = len([d for d in os.listdir(_SD) if not d.startswith("twin")
+               and os.path.exists(os.path.join(_SD, d, "patch.diff"))])
+N_TWINS = len([d for d in os.listdir(_SD) if d.startswith("twin")
+               and os.path.exists(os.path.join(_SD, d, "patch.diff"))])
 
 
 def main():
@@ -143,8 +150,8 @@ def main():
                        "reason": "check not built yet (work in progress); planned: "
                                  + t["technique"]})
     engines = [e for e in ENGINES if os.path.exists(os.path.join(HERE, e["path"]))]
-    for extra in ("tensor", "alias", "cfg", "refs", "canon", "fdinterp", "symexpr", "boolnorm",
-                  "symdiff", "reading_rules", "defassign"):
+    for extra in ("tensor", "alias", "cfg", "refs", "canon", "fdinterp", "fdpe", "symexpr", "boolnorm",
+                  "symdiff", "reading_rules", "defassign", "roundtrip"):
         p = f"aurelsa/{extra}.py"
         if os.path.exists(os.path.join(HERE, p)):
             engines.append(dict(name=f"aurelsa.{extra}", path=p, serves_properties=[],
@@ -153,7 +160,9 @@ def main():
                                                 "cfg": "statement-level control-flow graph, dominators, definite assignment",
                                                 "refs": "reference term tables (validated)",
                                                 "canon": "canonical form of loaded modules (behaviour-preserving rewrites)",
-                                                "fdinterp": "symbolic interpreter of the finite-difference array plumbing",
+                                                "fdinterp": "term language and affine segment arithmetic of the finite-difference array plumbing",
+                                                "fdpe": "partial evaluator of finitedifference.py / time.py / Psi4_lm (tables, closures, generators executed; field, grid size, parameters symbolic)",
+                                                "roundtrip": "abstract interpretation of the catalogue parser on the writer's line templates",
                                                 "symexpr": "scalar expressions to exact polynomials over function atoms",
                                                 "boolnorm": "quantifier normal form of membership predicates",
                                                 "symdiff": "syntactic differentiation, function atoms",
@@ -171,7 +180,7 @@ def main():
         "notes": ("Technique family: static analysis only (ast, hand-built CFG, dataflow, exact abstract domains); "
                   "no check imports or runs aurel. Exit 0 = held (KNOWN-FINDING lines for listed findings), "
                   "1 = VIOLATION, 2 = ANALYSIS-ERROR. Genuine defects of the pinned tree were repaired by 'fix:' "
-                  "commits in /repo (known_findings.json 'fixed'); seeded/ holds 108 confirmed breaking changes (each reported by the check of its property) and 200 behaviour-preserving twins (every check silent), replayed by the thorough tier."),
+                  "commits in /repo (known_findings.json 'fixed'); seeded/ holds " + str(N_SEEDS) + " confirmed breaking changes (each reported by the check of its property) and " + str(N_TWINS) + " behaviour-preserving twins (every check silent), replayed by the thorough tier."),
         "not_applicable": na,
     }
     with open(os.path.join(HERE, "MANIFEST.json"), "w") as f:
